@@ -111,7 +111,7 @@ var Prefixes = map[string][]seqx.Op{
 	"+ab-merged": {{K: "app", A: 0}, {K: "app", A: 1}, {K: "join", A: 1, B: 0}},
 	"+abc":       {{K: "app", A: 0}, {K: "app", A: 1}, {K: "app", A: 2}},
 	"+a-spread":  {{K: "app", A: 0}, {K: "join", A: 1, B: 0}, {K: "join", A: 2, B: 0}},
-	"+chain20": chain(0, 20),
+	"+chain20":   chain(0, 20),
 	"+fork12": append(append(append(chain(0, 4), seqx.Op{K: "join", A: 1, B: 0}), append(chain(0, 8), chain(1, 8)...)...),
 		seqx.Op{K: "join", A: 0, B: 1}),
 	"+tri4": append(append(append(chain(0, 4), chain(1, 4)...), chain(2, 4)...),
